@@ -42,7 +42,8 @@ Judge(e, r) ==
 \* supposed to stay inside; a violation is a failure of the machinery, not of biotite)
 DomOK(e, a) ==
   IF e.kind = "annseq" THEN
-    CASE e.op = "construct" -> WellFormedAnn(a[1]) /\ Dom_LocsInSeq(AS(a[1], a[2], a[3])) /\ Dom_Syms(a[2])
+    CASE e.op = "construct" -> /\ WellFormedAnn(a[1]) /\ Dom_Syms(a[2])
+                               /\ (Dom_LocsInSeq(AS(a[1], a[2], a[3])) \/ Dom_LeftOverhang(AS(a[1], a[2], a[3])))
       [] e.op = "slice" -> \/ Dom_SliceInSeq(S, a[1], a[2])
                            \/ (~IsNone(a[1]) /\ Val(a[1]) = S.start - 1 /\ ~Dom_SliceInSeq(S, a[1], a[2]))
       [] e.op = "getfeat" -> Dom_FeatIndex(S, a[1])
